@@ -60,6 +60,12 @@ func (p *Poller) Next() GenericDataType {
 		data, ok := p.Diode.TryNext()
 		if !ok {
 			if p.isDone() {
+				// A Set may have completed between the failed TryNext
+				// above and the cancellation: look once more so that
+				// it is not left behind.
+				if data, ok := p.Diode.TryNext(); ok {
+					return data
+				}
 				return nil
 			}
 
